@@ -100,13 +100,14 @@ structure P where
   toks : List Tok              -- head = lookahead
   last : TT := .root           -- type of the last consumed token (p.token)
   pendingErr : Option PErr := none   -- error raised after the node was already mutated
+  pulled : Nat := 1            -- tokens pulled from the lexer so far (one lookahead is always pulled)
 deriving Repr
 
 def eofTok : Tok := { typ := .eof, lit := [], line := 0, col := 0 }
 def P.peek (p : P) : Tok := p.toks.head?.getD eofTok
 def P.next (p : P) : P × Tok :=
   let t := p.peek
-  ({ p with toks := p.toks.tail, last := t.typ }, t)
+  ({ p with toks := p.toks.tail, last := t.typ, pulled := p.pulled + 1 }, t)
 
 def P.top (p : P) : Frame := p.stack.head?.getD { head := .root eofTok [] }
 
@@ -150,9 +151,6 @@ def backToIndent (indent : Int) : Nat → P → Except PErr P
 def backToParent (p : P) : Except PErr P :=
   if p.top.head.isRoot then .error { line := 0, col := 0, msg := "unexpected" } else .ok p.pop
 
-def selfClosedTags : List String :=
-  ["area", "base", "basefont", "br", "col", "embed", "frame", "hr", "img", "input",
-   "isindex", "keygen", "link", "menuitem", "meta", "param", "source", "track", "wbr"]
 
 /-- html.EscapeString -/
 def htmlEscape (s : GoStr) : GoStr :=
@@ -279,8 +277,7 @@ def parseStep (p : P) : Except PErr P :=
     | .package => let (p, t) := p.next; .ok (p.setTop { p.top with head := .root t ui })
     | .import =>
       let (p, t) := p.next
-      let defaults := [bs "\"context\"", bs "\"io\"", bs "\"github.com/stackus/goht\""]
-      if defaults.contains t.lit || ui.any (·.lit == t.lit) then .ok p
+      if Gen.defaultImports.contains t.lit || ui.any (·.lit == t.lit) then .ok p
       else .ok (p.setTop { p.top with head := .root pkg (ui ++ [t]) })
     | .goCode | .newLine => let (p, t) := p.next; .ok (p.push (.code [t]))
     | .gohtStart => let (p, t) := p.next; .ok (p.push (.goht t))
@@ -301,7 +298,7 @@ def parseStep (p : P) : Except PErr P :=
       | .newLine =>
         let (p, t) := p.next
         let e := { e with isComplete := true }
-        let e := if selfClosedTags.map bs |>.contains e.tag then { e with isSelfClosing := true } else e
+        let e := if Gen.selfClosedTags.contains e.tag then { e with isSelfClosing := true } else e
         let nk := p.top.kids.length
         let e := if e.isSelfClosing || nk > 0 then { e with disallowChildren := true } else e
         let p := p.setTop { p.top with head := .element e }
@@ -360,11 +357,13 @@ def parseLoop : Nat → P → (Option PErr × P)
       | some e => (some e, p)
       | none => if p.last == .eof then (none, p) else parseLoop n p
 
-/-- Parse a token stream. Returns the error (if any) and the (possibly partial) tree. -/
-def parseToks (toks : List Tok) : Option PErr × Node :=
-  let p0 : P := { stack := [{ head := .root { typ := .package, lit := bs "main", line := 0, col := 0 } [] }], toks := toks }
+/-- Parse a token stream. Returns the error (if any), the (possibly partial) tree and the number of
+tokens the parser pulled from the lexer. -/
+def parseToks (toks : List Tok) : Option PErr × Node × Nat :=
+  let p0 : P := { stack := [{ head := .root { typ := .package, lit := Gen.defaultPackage, line := 0, col := 0 } [] }], toks := toks }
   let (e, p) := parseLoop (4 * toks.length + 16) p0
+  let pulled := p.pulled
   let p := closeAll (p.stack.length + 1) p
-  (e, p.top.toNode)
+  (e, p.top.toNode, pulled)
 
 end GL
